@@ -298,7 +298,8 @@ MSG_RULE = ("BFS over histories of {pub by 4 users (one with forged sender heade
             "channel name, a stranger): publishes incl. by readers, reader attach / leave / unsubscribe, notes from members and readers, "
             "history reads, reload. suspended (C03): BFS to depth 5 / 7 over {member publishes to a group / p2p topic, root suspends / re-activates "
             "the owner, reload, re-attach, typing note}. sys (C02, C03; also a part of C07): BFS to depth 3 / 5 over publishes / attach attempts / history reads on 'sys' by an "
-            "ordinary, an anonymous-level, two root users and a connection which has not logged in")
+            "ordinary, an anonymous-level, two root users and a connection which has not logged in. races (C02, C03): all schedules up to the "
+            "deviation bound of the C14 collision scenarios which contain a publish: no session receives a message twice or out of order")
 for _cid, _what in [("C03", "publish decision = attached AND W in want&given; a rejected publish leaves store, ids, frames and pushes untouched"),
                     ("C04", "history = stored minus hard-deleted minus own soft-deleted within [since,before), newest first, limit; deletion = exact union; deletion log exact"),
                     ("C09", "0<=read<=recv<=last in store, cache, {get desc}, {get sub}; marks never decrease and move only by own pub/note; relay filters"),
@@ -311,7 +312,8 @@ for _cid, _what in [("C03", "publish decision = attached AND W in want&given; a 
               parts=[Part("msg", SRV, "^TestVerif%sMsg$" % _cid, instr=True, gomaxprocs=16, deadline=(400, 3000))] +
                     ([Part("p2p", SRV, "^TestVerif%sP2P$" % _cid, instr=True, gomaxprocs=16, deadline=(300, 2400))] if _cid in ("C02", "C03", "C09") else []) +
                     ([Part("chan", SRV, "^TestVerif%sChan$" % _cid, instr=True, gomaxprocs=16, deadline=(300, 2400))] if _cid in ("C02", "C03", "C09") else []) +
-                    ([Part("sys", SRV, "^TestVerifC02Sys$", instr=True, gomaxprocs=16, deadline=(300, 2400))] if _cid == "C02" else []) +
+                    ([Part("sys", SRV, "^TestVerifC02Sys$", instr=True, gomaxprocs=16, deadline=(300, 2400)),
+                      Part("races", SRV, "^TestVerifC02Races$", instr=True, shards=(8, 16), deadline=(300, 3000))] if _cid == "C02" else []) +
                     ([Part("races", SRV, "^TestVerifC03Races$", instr=True, shards=(8, 16), deadline=(300, 3000)),
                       Part("suspended", SRV, "^TestVerifC03Suspended$", instr=True, gomaxprocs=16, deadline=(300, 2400)),
                       Part("sys", SRV, "^TestVerifC03Sys$", instr=True, gomaxprocs=16, deadline=(300, 2400))] if _cid == "C03" else []) +
